@@ -57,7 +57,7 @@ def run_case(desc):
     # perturb the state a little so that dry plans contain both reads and writes
     for _ in range(rng.randint(0, 3)):
         ps = [i for i in S.reg if S.rp.role[i] == "psrc"]
-        dl = [i for i in S.reg if S.rp.role[i] in ("stored", "dsrc")]
+        dl = [i for i in S.reg if S.rp.role[i] in ("stored", "dsrc", "slit")]
         if ps and rng.random() < 0.5:
             i = rng.choice(ps)
             S.src_version[i] += 1
